@@ -64,6 +64,9 @@ type GlobalTSOAllocator struct {
 	// which is used to estimate the MaxTS in a Global TSO generation
 	// to reduce the gRPC network IO latency.
 	syncRTT atomic.Value // store as int64 milliseconds
+	// syncMu serializes the Global TSO generations that synchronize with the Local TSO Allocators:
+	// two concurrent ones would collect the same MaxTS and both return MaxTS+count.
+	syncMu sync.Mutex
 }
 
 // NewGlobalTSOAllocator creates a new global TSO allocator.
@@ -169,6 +172,8 @@ func (gta *GlobalTSOAllocator) GenerateTSO(count uint32) (pdpb.Timestamp, error)
 
 	// Have dc-locations configured in the cluster, use the Global TSO generation way.
 	// (whit synchronization with other Local TSO Allocators)
+	gta.syncMu.Lock()
+	defer gta.syncMu.Unlock()
 	ctx, cancel := context.WithCancel(context.Background())
 	defer cancel()
 	for i := 0; i < maxRetryCount; i++ {
